@@ -241,7 +241,7 @@ func genPathRec(rt *rapid.T, tk *tokens, item int) kenc.Rec {
 	} else if rapid.IntRange(0, 3).Draw(rt, "hexname") == 0 {
 		f = append(f, kenc.U("name", "/p/with space/"+tk.s("name")))
 	} else {
-		f = append(f, kenc.U("name", "/p/"+tk.s("name")))
+		f = append(f, kenc.U("name", long(rt, "/p/"+tk.s("name"))))
 	}
 	f = append(f, kenc.P("inode", tk.num()), kenc.P("dev", "fd:"+tk.num()), kenc.P("mode", fmt.Sprintf("%#o", mode)),
 		kenc.P("ouid", tk.num()), kenc.P("ogid", tk.num()), kenc.P("rdev", "00:"+tk.num()))
@@ -253,10 +253,23 @@ func genPathRec(rt *rapid.T, tk *tokens, item int) kenc.Rec {
 	return kenc.Rec{Type: recgen.PATH, Fields: f}
 }
 
+// long pads a value, now and then, to a length around a power of two (the kernel cuts a process title at 128
+// bytes, a path at 4096; anybody's idea of "long" lies near such a number).
+func long(rt *rapid.T, s string) string {
+	if rapid.IntRange(0, 7).Draw(rt, "long") != 0 {
+		return s
+	}
+	n := rapid.SampledFrom([]int{128, 127, 129, 255, 256, 257, 1023, 1024, 1025, 4095, 4096}).Draw(rt, "longlen")
+	for len(s) < n {
+		s += "-long"
+	}
+	return s[:max(n, 0)]
+}
+
 func genOtherRec(rt *rapid.T, tk *tokens, kind string, collide bool) kenc.Rec {
 	switch kind {
 	case "cwd":
-		return kenc.Rec{Type: recgen.CWD, Fields: []kenc.F{kenc.U("cwd", "/home/"+tk.s("cwd"))}}
+		return kenc.Rec{Type: recgen.CWD, Fields: []kenc.F{kenc.U("cwd", long(rt, "/home/"+tk.s("cwd")))}}
 	case "execve":
 		var args [][]byte
 		argc := rapid.IntRange(0, 4).Draw(rt, "argc")
@@ -271,6 +284,9 @@ func genOtherRec(rt *rapid.T, tk *tokens, kind string, collide bool) kenc.Rec {
 			a := tk.s("arg")
 			if rapid.IntRange(0, 3).Draw(rt, "hexarg") == 0 {
 				a = "arg with space " + tk.s("")
+			}
+			if argc < 30 {
+				a = long(rt, a)
 			}
 			args = append(args, []byte(a))
 		}
@@ -302,7 +318,7 @@ func genOtherRec(rt *rapid.T, tk *tokens, kind string, collide bool) kenc.Rec {
 			return kenc.Rec{Type: recgen.SOCKADDR, Fields: []kenc.F{{K: "saddr", Enc: kenc.HexAlways, V: kenc.SockaddrUnix([]byte("/run/"+tk.s("sock")), []byte{1, 2})}}}
 		}
 	case "proctitle":
-		return kenc.Rec{Type: recgen.PROCTITLE, Fields: []kenc.F{kenc.U("proctitle", tk.s("title")+"\x00"+tk.s("targ"))}}
+		return kenc.Rec{Type: recgen.PROCTITLE, Fields: []kenc.F{kenc.U("proctitle", long(rt, tk.s("title")+"\x00"+tk.s("targ")))}}
 	case "avc":
 		f := []kenc.F{kenc.T("avc:  denied  { " + rapid.SampledFrom([]string{"read", "read write", "execute"}).Draw(rt, "perms") + " } for "),
 			kenc.P("ino", tk.num()), kenc.U("path", "/avc/"+tk.s("p")), kenc.Q("dev", tk.s("sd")),
@@ -331,6 +347,13 @@ func genOtherRec(rt *rapid.T, tk *tokens, kind string, collide bool) kenc.Rec {
 	case "feature":
 		return kenc.Rec{Type: 1328, Fields: []kenc.F{kenc.P("feature", tk.s("feat")), kenc.P("old", tk.num()), kenc.P("new", tk.num()),
 			kenc.P("res", rapid.SampledFrom([]string{"0", "1"}).Draw(rt, "auxres"))}}
+	case "wide":
+		// a record with hundreds of fields (a long EXECVE is the usual one; here every key is a new one)
+		var f []kenc.F
+		for i, n := 0, rapid.SampledFrom([]int{257, 256, 255, 300, 129, 65, 1025}).Draw(rt, "widefields"); i < n; i++ {
+			f = append(f, kenc.P(fmt.Sprintf("w%d", i), tk.num()))
+		}
+		return kenc.Rec{Type: 1328, Fields: f}
 	case "fdpair":
 		return kenc.Rec{Type: recgen.FD_PAIR, Fields: []kenc.F{kenc.P("fd0", tk.num()), kenc.P("fd1", tk.num())}}
 	}
@@ -452,9 +475,9 @@ func genC09(rt *rapid.T) C09Case {
 	default:
 		sys := genSyscallRec(rt, tk)
 		var others []kenc.Rec
-		kinds := []string{"cwd", "execve", "sockaddr", "proctitle", "avc", "apparmor", "bprm", "mmap", "objpid", "fdpair", "kmod", "config", "feature"}
+		kinds := []string{"cwd", "execve", "sockaddr", "proctitle", "avc", "apparmor", "bprm", "mmap", "objpid", "fdpair", "kmod", "config", "feature", "wide"}
 		for i, k := range kinds {
-			if rapid.IntRange(0, 2).Draw(rt, "has-"+k) == 0 {
+			if rapid.IntRange(0, map[bool]int{false: 2, true: 11}[k == "wide"]).Draw(rt, "has-"+k) == 0 {
 				r := genOtherRec(rt, tk, k, rapid.IntRange(0, 2).Draw(rt, "collide") == 0)
 				if i >= 4 && rapid.IntRange(0, 4).Draw(rt, "ownsubj") == 0 {
 					// its own security context (kernel records of a compound event usually repeat the task's;
